@@ -236,11 +236,18 @@ class Gen:
             return "(ta %s %s)" % (self.ident(), " ".join(self.ident() for _ in range(r.randrange(1, 4))))
         if k < 0.92 and depth > 0 and self.subqueries:
             return "(tsub %s %s)" % (self.select(depth - 1), self.ident())
-        if k < 0.97:
+        if k < 0.96:
             w = r.randrange(1, 3)
             rows = " ".join("(row %s)" % " ".join(self.value() for _ in range(w)) for _ in range(r.randrange(1, 3)))
             return "(tvalues %s %s)" % (self.ident(), rows)
+        if k < 0.99:
+            # a function call as a table (TableRef::FunctionCall / from_function)
+            fn = r.choice(["cust:%s" % hexs("generate_series"), "max", "coalesce", "random"])
+            return "(tfn %s %s%s)" % (fn, self.ident(), "".join(" " + self.value_expr() for _ in range(r.randrange(0, 3))))
         return "(t %s)" % self.ident()
+
+    def value_expr(self):
+        return "(val %s)" % self.value()
 
     def order(self, depth):
         r = self.r
